@@ -149,11 +149,14 @@ def fmtFixed (bits prec : Nat) : List Char :=
 def binaryPrefixes : List String := ["Ki", "Mi", "Gi", "Ti", "Pi", "Ei", "Zi", "Yi"]
 def decimalPrefixes : List String := ["k", "M", "G", "T", "P", "E", "Z", "Y"]
 
-/-- `number_prefix`'s loop: divide by `kilo` while the amount is at least `kilo`, at most 8 times
-(hardware `f64` arithmetic, as in the crate) -/
-def prefixLoop (kilo : Float) : Nat → Float → Nat → Float × Nat
+/-- `number_prefix`'s loop: divide by `kilo` while the amount is at least `kilo`, at most 8 times; generic in
+the arithmetic, so that it runs on hardware `f64` (as in the crate) and is reasoned about over an ordered field -/
+def prefixLoopG {α : Type} (ge : α → α → Bool) (div : α → α → α) (kilo : α) : Nat → α → Nat → α × Nat
   | 0, a, p => (a, p)
-  | fuel + 1, a, p => if a >= kilo && p < 8 then prefixLoop kilo fuel (a / kilo) (p + 1) else (a, p)
+  | fuel + 1, a, p => if ge a kilo && decide (p < 8) then prefixLoopG ge div kilo fuel (div a kilo) (p + 1) else (a, p)
+
+def prefixLoop (kilo : Float) (fuel : Nat) (a : Float) (p : Nat) : Float × Nat :=
+  prefixLoopG (fun x y => x >= y) (· / ·) kilo fuel a p
 
 /-- `HumanBytes` / `BinaryBytes` (`binary = true`) and `DecimalBytes` of a `u64` -/
 def humanBytes (n : Nat) (binary : Bool) : List Char :=
